@@ -1,4 +1,5 @@
 import GffProofs.Props.C10
+import GffProofs.Props.C10b
 open GffProofs.C10
 #print axioms delete_exact
 #print axioms delete_mem_features
@@ -32,3 +33,16 @@ open GffProofs.C10
 #print axioms step_synced
 #print axioms step_frame
 #print axioms histOkB_sound
+-- C10b: update with colliding keys
+#print axioms update_refines_spec_strategies
+#print axioms update_strategies_levels
+#print axioms level2Closed_update_strategies
+#print axioms update_error_collision
+#print axioms populate_strategies
+#print axioms populateGff_rels
+#print axioms update_gtf_counters_and_rows_partial
+#print axioms createDb_gtf_popInv
+#print axioms update_after_create_gtf
+#print axioms update_gff_generic
+#print axioms update_merge_refines_spec
+#print axioms mergeInv_of_dec
